@@ -35,7 +35,7 @@ m = {
     "hooks": {
         "guard": "verif",
         "enable": "Go build tag `verif`: comment-only contract files <pkg>/verif_contracts.go; gocv loads /repo with -tags=verif",
-        "baseline_off_cmd": "cd /repo && go test -mod=mod -vet=off -count=1 -timeout 25m ./...",
+        "baseline_off_cmd": "cd /repo && go test -mod=mod -json -vet=off -count=1 -timeout 25m ./...",
         "source_commits": hook_commits,
         "add_only": True,
     },
